@@ -113,8 +113,15 @@ fn normalise_assignment(toks: &[Tok], gaps: &[Vec<Item>]) -> Vec<Vec<Item>> {
                 out[i].insert(0, Item::Ws(5));
             }
         }
-        if i >= 1 && i < n && out[i].is_empty() && gap_needs_separator(toks, i) {
-            out[i].push(Item::Ws(5));
+        // gaps are settled left to right: the left neighbour is final, the right one is taken as
+        // it stands (if it is forced open later this gap was opened without need, which is harmless).
+        // Context-sensitive on purpose: `1e- 3` and `1e -3` are both generated, `1e-3` never.
+        if i >= 1 && i < n && out[i].is_empty() {
+            let left_tight = i >= 2 && out[i - 1].is_empty();
+            let right_tight = i + 1 < n && out[i + 1].is_empty() && !tok::pair_fuses(toks, i + 1);
+            if tok::gap_needs_separator_given(toks, i, left_tight, right_tight) {
+                out[i].push(Item::Ws(5));
+            }
         }
     }
     if n == 0 {
@@ -324,7 +331,7 @@ pub fn run(rep: &Report) {
          separator is forced where the reference tokenizer would fuse the neighbours; a gap after `/` never starts with \
          a comment) plus the canonical single-space rendering; oracle: all three build equal trees or fail with the \
          same error variant; admissibility asserted with the reference tokenizer. Complete table: every ordered pair \
-         of token-class representatives x every separator kind. All sequences up to length 4 over the base alphabet \
+         of token-class representatives x every separator kind, and every ordered triple x {empty, space, comment}^2 for its two gaps (a gap is forced open only if the rendering as it stands would fuse: `1e- 3` and `1e -3` are checked, `1e-3` is a different program). All sequences up to length 4 over the base alphabet \
          rendered tight and with comments. Non-trivial: distinct pairs of renderings in which some gap differs in kind \
          (empty / whitespace / comment).",
     );
@@ -352,6 +359,20 @@ pub fn run(rep: &Report) {
         check_case(&SepCase { toks, s1, s2 }, l)
     });
     rep.add_extra("pair_table", json!(format!("{} class representatives^2 x {} separators x 2 contexts", k, m)));
+    // complete table of triples: three-part joins (`1e` `-` `3`) depend on both gaps at once, so
+    // every ordered triple of class representatives x {empty, space, comment}^2 for its two gaps
+    let kinds: [Vec<Item>; 3] = [Vec::new(), vec![Item::Ws(5)], vec![Item::Block(String::new())]];
+    common::enumerate(rep, "triple-table", k * k * k * 9, 4096, &|i, l| {
+        let a = &reps[(i % k) as usize];
+        let b = &reps[((i / k) % k) as usize];
+        let c = &reps[((i / (k * k)) % k) as usize];
+        let g = (i / (k * k * k)) as usize;
+        let toks = vec![a.clone(), b.clone(), c.clone()];
+        let s1 = vec![Vec::new(), kinds[g % 3].clone(), kinds[g / 3].clone(), Vec::new()];
+        let s2 = vec![Vec::new(), kinds[g / 3].clone(), kinds[g % 3].clone(), Vec::new()];
+        check_case(&SepCase { toks, s1, s2 }, l)
+    });
+    rep.add_extra("triple_table", json!(format!("{} class representatives^3 x 3^2 gap kinds", k)));
     // all short sequences, tight vs commented
     let base = gen::base_alphabet();
     let max_len = rep.tier.pick(4usize, 5);
